@@ -628,6 +628,14 @@ def run_drill(case, rec, rng, scene):
         if rng.random() < 0.6:
             h.add_data({"iv": {"from-to": np.c_[np.arange(3.0), np.arange(3.0) + 1.0], "values": np.arange(3.0) + 100 * i}}, property_group="itab")
             expected.setdefault(f"h{i}", {})["iv"] = canon(np.arange(3.0) + 100 * i)
+    if (mode + case.get("rep", 0) + len(expected)) % 2 == 0:
+        # ordinary children next to the holes: a remark and an attached file on the group itself
+        grp.add_comment("remark on the drillhole group", author="logger")
+        fpath = os.path.join(scene.dir, "collar_survey.txt")
+        with open(fpath, "w") as f:
+            f.write("hole,x,y\n")
+        grp.add_file(fpath)
+        rec.see("drillhole-groups-with-ordinary-children")
     rec.see("drillhole-groups")
     where = f"copy-drillgroup:{case['target']}:v{case['version']}"
     if lazy or rng.random() < 0.5:
